@@ -297,12 +297,18 @@ def contains_reuse_info(text: str) -> bool:
 def detect_line_endings(text: str) -> str:
     """Return one of '\n', '\r' or '\r\n' depending on the line endings used in
     *text*. Return os.linesep if there are no line endings.
+
+    If there are line endings of several kinds, the most frequent one is
+    returned: one carriage return that is data in some line does not make a
+    file a classic Mac OS file.
     """
-    line_endings = ["\r\n", "\r", "\n"]
-    for line_ending in line_endings:
-        if line_ending in text:
-            return line_ending
+    windows = text.count("\r\n")
+    counts = {
+        "\r\n": windows,
+        "\n": text.count("\n") - windows,
+        "\r": text.count("\r") - windows,
+    }
+    line_ending = max(counts, key=lambda key: counts[key])
+    if counts[line_ending]:
+        return line_ending
     return os.linesep
-
-
-# REUSE-IgnoreEnd
